@@ -42,7 +42,8 @@ package objectcore
 // favourably; facts are keyed by the nesting level so that the (recursive) validation of a
 // parent header cannot stand in for a check of the object itself.
 
-//@ fileprops C24
+// (C31 too: objects arriving by replication go through this validator.)
+//@ fileprops C24 C31
 
 //@ ghost pred idMatchesHeader(level int) bool
 //@ ghost pred objAuthenticated(level int) bool
